@@ -631,10 +631,10 @@ pub fn run(ctx: &Ctx) -> i32 {
     col.sample(json!({"layer": "A", "triple": [d[10].0, d[11].0, d[16].0]}));
 
     // Layer B consumers
-    let maxlen = ctx.tier.pick(3, 4);
+    let maxlen = ctx.tier.pick(3, 5);
     for ty in ["REAL", "INT", "TEXT"] {
         let k = tokens(ty).len() as u64;
-        let ml = if ty == "REAL" { maxlen } else { 3.min(maxlen) };
+        let ml = if ty == "REAL" { maxlen } else if ctx.tier == Tier::Thorough { 4 } else { 3.min(maxlen) };
         let total = seq_count(k, ml);
         par_for(total, |idx| {
             let seq = seq_decode(idx, k, ml);
